@@ -249,6 +249,30 @@ def corpus(rng, n):
     for k_, sy in enumerate(maps):
         texts.append({"text": gen.render_sections([("Song", ["  Resolution = 192"]), ("SyncTrack", sy), ("Events", ev), ("ExpertSingle", tr)]),
                       "want": None, "res": 192, "kind": "valid", "follow": first + (k_ + 1) % len(maps), "coinciding": True})
+    # charts whose very FIRST arithmetic decision of its kind sits on a rounding boundary: a tempo change exactly half a microsecond
+    # into its segment (ties), and a second note exactly the rounded eighth-triplet after the first at a resolution that is not a
+    # multiple of 3 - whatever a process computes "the first time" for a (tempo, resolution) or a resolution, and looks up afterwards,
+    # is computed here on a value where two formulations differ
+    from vmon.props import c11 as _c11
+
+    for res_, tempi in sorted(_c11.TIE_TEMPI.items()) + [(192, [224000])]:
+        n0 = gen.usable_n(tempi[0])
+        odd = [1260] if tempi == [224000] else [t for t in (1, 3, 7, 11, 25, 101, 333) if (t * 60 * 10**6 * 1000 * 2) % (n0 * res_) == 0
+                                                and (t * 60 * 10**6 * 1000) % (n0 * res_) != 0][:3]
+        if not odd:
+            continue
+        tempos = [[0, n0]] + [[t, gen.usable_n(tempi[(k + 1) % len(tempi)])] for k, t in enumerate(odd)]
+        last = odd[-1]
+        truth = {"resolution": res_, "tempos": tempos, "timesigs": [[0, 4, None]], "globals": [[last + 1, "section", "tie"], [last + 3, "text", "after"]],
+                 "tracks": {"GUITAR/EXPERT": {"groups": [{"tick": t, "lanes": {str(k % 5): 2}, "open": None, "forced": False, "tap": False}
+                                                         for k, t in enumerate(sorted(set(odd + [last + 2, last + 5, last + 9])))]}}}
+        texts.append({"text": gen.render_truth(truth)["text"], "want": None, "res": res_, "kind": "valid", "first_decision_on_a_boundary": True})
+    for res_ in (200, 500, 125, 5, 191, 98):
+        thr = model.hopo_threshold(res_)
+        ticks_ = [0, thr, 2 * thr + 1, 3 * thr + 1, 4 * thr, 5 * thr]
+        truth = {"resolution": res_, "tempos": [[0, gen.usable_n(120000)]], "timesigs": [[0, 4, None]],
+                 "tracks": {"BASS/HARD": {"groups": [{"tick": t, "lanes": {str(k % 5): 0}, "open": None, "forced": False, "tap": False} for k, t in enumerate(ticks_)]}}}
+        texts.append({"text": gen.render_truth(truth)["text"], "want": None, "res": res_, "kind": "valid", "first_decision_on_a_boundary": True})
     # charts that fail LATE — in the instrument stage, after tempo map, events and at least one whole track were built — each
     # followed (usually at once, same thread) by a sibling with the same ticks under other tempi: whatever the aborted parse left
     # half-done must not reach the next one
